@@ -96,7 +96,7 @@ theorem solid_closed (e : Env) (wf : WF e) : Closed e (Solid e) where
         exact h.marked r' j hm hn
       · exact h.marked r' j hm
   book := by
-    intro σ r i t _ _ _ hi0 _ _ h
+    intro σ r i t _ _ _ hi0 _ _ _ h
     have hnorm : e.norm i = i := by unfold Env.norm; simp [Int.not_lt.mpr hi0]
     refine ⟨?_, ?_⟩
     · intro r' i'
@@ -152,7 +152,7 @@ theorem has_closed (e : Env) (r : Nat) (i : Int) : Closed e (Has r i) where
       exact h hn
     · exact h
   book := by
-    intro σ r' i' t _ _ _ _ _ _ h
+    intro σ r' i' t _ _ _ _ _ _ _ h
     unfold Has at *
     rw [bookSlot_eq, incAll_led]
     simp only [Ledger.get_set]
@@ -189,7 +189,7 @@ theorem refuses_closed (e : Env) (lid : Nat) (i : Int) (ro : Option Nat) : Close
   reserve := by intro σ r i' off _ _ _ h; exact h
   release := by intro σ r i' t a _ _ _ _ h; exact h
   book := by
-    intro σ r i' t _ _ _ _ _ _ h
+    intro σ r i' t _ _ _ _ _ _ _ h
     unfold Refuses at *
     rw [limitOk_false_iff] at h ⊢
     refine ⟨h.1, h.2.1, ?_⟩
